@@ -8,6 +8,7 @@ package main
 import (
 	"fmt"
 	"go/token"
+	"math/big"
 	"sort"
 	"strings"
 
@@ -35,51 +36,99 @@ func ruleTTruth(c *Ctx) {
 		c.Undecided("T-truth", "asBool", fn.Pos(), err.Error())
 		return
 	}
-	// one iteration: atoms in[i < len], nz[t[i] != 0], last[i == len-1], neg[t[i] == 0x80]
-	atom := func(s string) string {
-		switch {
-		case strings.Contains(s, "< len(p0)"):
-			return "in"
-		case strings.HasSuffix(s, "] != 0)"):
-			return "nz"
-		case strings.Contains(s, "== (len(p0) - 1))"):
-			return "last"
-		case strings.HasSuffix(s, "] == 128)"):
-			return "neg"
-		}
-		return "?" + s
-	}
-	got := map[string]bool{}
+	// one iteration, decided on a grid over (length, loop position, byte value): past the end -> false;
+	// zero byte -> next iteration; 0x80 in the last position -> false; anything else -> true
+	bases := condBaseTerms(paths)
 	for _, d := range paths {
-		var cs []string
-		for _, pc := range d.Conds {
-			a := atom(atomName(pc.Cond))
-			if !pc.Truth {
-				a = "!" + a
-			}
-			cs = append(cs, a)
-		}
-		leaf := d.EndKind
 		if d.Ret != nil {
-			leaf = "return " + d.Env.Term(d.Ret.Results[0]).String()
-		}
-		got[strings.Join(cs, " ")+" => "+leaf] = true
-	}
-	want := setOf(
-		"!in => return false",
-		"in !nz => loop",
-		"in nz last neg => return false",
-		"in nz last !neg => return true",
-		"in nz !last => return true",
-	)
-	same := len(got) == len(want)
-	for k := range got {
-		if !want[k] {
-			same = false
+			baseTerms(d.Env.Term(d.Ret.Results[0]), bases)
 		}
 	}
-	c.Check(same, "T-truth", "asBool", fn.Pos(), "false iff all bytes are zero, a final 0x80 counting as zero: "+strings.Join(keysSorted(got), " | "),
-		fmt.Sprintf("asBool's decision structure changed: {%s}, specified {%s}", strings.Join(keysSorted(got), " | "), strings.Join(keysSorted(want), " | ")))
+	var lenK, elemK, posK string
+	var elemT *T
+	for k, t := range bases {
+		switch {
+		case k == "len(p0)":
+			lenK = k
+		case strings.HasPrefix(k, "p0["):
+			elemK, elemT = k, t
+		case t.K == "phi":
+			posK = k
+		default:
+			c.Undecided("T-truth", "asBool", fn.Pos(), "asBool decides on "+k+", which is neither the length, the position nor a byte of the item")
+			return
+		}
+	}
+	if lenK == "" || elemT == nil || len(elemT.Args) != 2 {
+		c.Undecided("T-truth", "asBool", fn.Pos(), "asBool's loop does not test a byte of the item against its length")
+		return
+	}
+	bad := ""
+	cells := 0
+	for _, L := range []int64{1, 3} {
+		for _, pos := range []int64{-1, 0, L - 2, L - 1, L} {
+			for _, bv := range []int64{0, 1, 0x7f, 0x80, 0x81} {
+				asg := map[string]*big.Int{lenK: big.NewInt(L), elemK: big.NewInt(bv)}
+				if posK != "" {
+					asg[posK] = big.NewInt(pos)
+				}
+				iv, ok := evalTerm(elemT.Args[1], asg)
+				if !ok {
+					c.Undecided("T-truth", "asBool", fn.Pos(), "the position of the byte tested is not a function of the loop variable")
+					return
+				}
+				i := iv.Int64()
+				if i < 0 {
+					continue
+				}
+				got := map[string]bool{}
+				for _, d := range paths {
+					holds := true
+					for _, pc := range d.Conds {
+						v, ok := evalTerm(pc.Cond, asg)
+						if !ok {
+							c.Undecided("T-truth", "asBool", fn.Pos(), "condition outside the table: "+atomName(pc.Cond))
+							return
+						}
+						if (v.Sign() != 0) != pc.Truth {
+							holds = false
+						}
+					}
+					if !holds {
+						continue
+					}
+					leaf := d.EndKind
+					if d.Ret != nil {
+						rv, ok := evalTerm(d.Env.Term(d.Ret.Results[0]), asg)
+						if !ok {
+							leaf = "return ?"
+						} else if rv.Sign() != 0 {
+							leaf = "return true"
+						} else {
+							leaf = "return false"
+						}
+					}
+					got[leaf] = true
+				}
+				want := "return true"
+				switch {
+				case i >= L:
+					want = "return false"
+				case bv == 0:
+					want = "loop"
+				case i == L-1 && bv == 0x80:
+					want = "return false"
+				}
+				cells++
+				if (len(got) != 1 || !got[want]) && bad == "" {
+					bad = fmt.Sprintf("item of %d byte(s), position %d, byte 0x%02x: %v, specified %s", L, i, bv, keysSorted(got), want)
+				}
+			}
+		}
+	}
+	c.Covered["T-truth:asBool_cells"] = cells
+	c.Check(bad == "", "T-truth", "asBool", fn.Pos(), fmt.Sprintf("false iff all bytes are zero, a final 0x80 counting as zero (%d cells over length, position, byte)", cells),
+		"asBool's decision structure changed: "+bad)
 	// consumers
 	env := newTermEnv()
 	for _, cs := range []struct{ recv, name, want string }{
